@@ -9,6 +9,7 @@ Vectors are bit arrays packed little-endian in a `Nat` (array entry `j` = `testB
 lists of rows; `isSp n M` says: `2n` rows, every row below `4^n`, and `S Λ Sᵀ = Λ`.
 -/
 import NumqiProofs.SpF2Inverse
+import NumqiProofs.SpF2Enum
 
 namespace Numqi.C09
 open Numqi Numqi.SpF2
@@ -85,6 +86,23 @@ theorem getNumber_order (n : Nat) :
     order n = ∏ i ∈ Finset.range n, ((4 ^ (i + 1) - 1) * 2 ^ (2 * (i + 1) - 1)) ∧
     (cosetNumbers n).prod = order n ∧ (allTuples n).length = order n :=
   ⟨order_eq_prod n, cosetNumbers_prod n, allTuples_length n⟩
+
+/-- the loop `itertools.product(*[range(b) for b in base])` lists exactly the in-range tuples of length `n` … -/
+theorem allTuples_mem (n : Nat) (t : List (Nat × Nat)) : t ∈ allTuples n ↔ t.length = n ∧ inRange t = true :=
+  mem_allTuples_iff n t
+
+/-- … so the `order n` matrices `from_int_tuple(t)` enumerated by it are exactly the symplectic group
+(with `fromIntTuple_injective`: each exactly once) -/
+theorem images_exactly_Sp (n : Nat) (M : List Nat) :
+    M ∈ (allTuples n).map fromIntTuple ↔ isSp n M = true := by
+  constructor
+  · intro h
+    obtain ⟨t, ht, rfl⟩ := List.mem_map.1 h
+    obtain ⟨h1, h2⟩ := (mem_allTuples_iff n t).1 ht
+    rw [← h1]; exact fromIntTuple_mem_Sp t h2
+  · intro h
+    obtain ⟨t, h1, h2, h3⟩ := fromIntTuple_surjective n M h
+    exact List.mem_map.2 ⟨t, (mem_allTuples_iff n t).2 ⟨h1, h2⟩, h3⟩
 
 /-- **`rand_SpF2` (`random/_spf2.py:32-58`) is valid for every draw**: it returns `from_int_tuple` of a tuple whose entries are
 drawn with `rng.randint(0, base-1)` (in range), hence a symplectic matrix from which `to_int_tuple` recovers the tuple -/
